@@ -429,10 +429,13 @@ package core
 //@   ensures str(n) == method_name(typeof(self), ival(self))
 //@ iface Method.Missing(self) (b)
 //@   nopanic
+//@   ensures b == method_missing(typeof(self), ival(self))
 //@ iface Method.PassContext(self) (b)
 //@   nopanic
+//@   ensures b == method_passctx(typeof(self), ival(self))
 //@ iface Method.ReturnError(self) (b)
 //@   nopanic
+//@   ensures b == method_reterr(typeof(self), ival(self))
 //@ iface Method.Func(self) (f)
 //@   nopanic
 
@@ -472,6 +475,19 @@ package core
 //@   requires s != nil && ctx != nil
 //@   modifies ghost.rcalls, ghost.rcall_in, ghost.rcall_out, ghost.rcall_fn_ptr
 //@   loop 3 invariant forall(k, 0, rangeidx(), rv_valid(in[k]) || (k >= type_numin(ival(ft)) && !type_variadic(ival(ft))))
-//@   loop 3 invariant forall(k, rangeidx(), len(in), old(true) && (rv_valid(in[k]) || !rv_valid(in[k])))
+//@   loop 3 invariant [arguments_still_in_place] len(in) == len(args) + ite(method_passctx(typeof(method), ival(method)), 1, 0) && forall(k, 0, len(args), args[k] != nil ==>
+//@       rv_valid(in[k + ite(method_passctx(typeof(method), ival(method)), 1, 0)]) &&
+//@       rv_src_t(in[k + ite(method_passctx(typeof(method), ival(method)), 1, 0)]) == typeof(args[k]) &&
+//@       rv_src_v(in[k + ite(method_passctx(typeof(method), ival(method)), 1, 0)]) == ival(args[k]))
+//@   loop 4 invariant [results_so_far] 0 <= i && i <= n && n <= len(out) && len(result) == i && forall(k, 0, i, typeof(result[k]) == rv_src_t(out[k]) && ival(result[k]) == rv_src_v(out[k]))
+//@   ensures [published_function_is_called_exactly_once] !method_missing(typeof(method), ival(method)) ==> ghost.rcalls == old(ghost.rcalls) + 1
+//@   ensures_panic [never_called_twice] ghost.rcalls <= old(ghost.rcalls) + 1
+//@   ensures [arguments_reach_the_function_in_order] !method_missing(typeof(method), ival(method)) ==>
+//@       len(ghost.rcall_in) == len(args) + ite(method_passctx(typeof(method), ival(method)), 1, 0) && forall(k, 0, len(args), args[k] != nil ==>
+//@       rv_src_t(ghost.rcall_in[k + ite(method_passctx(typeof(method), ival(method)), 1, 0)]) == typeof(args[k]) &&
+//@       rv_src_v(ghost.rcall_in[k + ite(method_passctx(typeof(method), ival(method)), 1, 0)]) == ival(args[k]))
+//@   ensures [results_come_back_in_order] !method_missing(typeof(method), ival(method)) ==>
+//@       len(result) == len(ghost.rcall_out) - ite(method_reterr(typeof(method), ival(method)), 1, 0) &&
+//@       forall(k, 0, len(result), typeof(result[k]) == rv_src_t(ghost.rcall_out[k]) && ival(result[k]) == rv_src_v(ghost.rcall_out[k]))
 //@   loop 1 invariant 0 <= i && len(in) == n + 1 && forall(k, 0, i, args[k] != nil ==> rv_valid(in[k + 1]) && rv_src_t(in[k + 1]) == typeof(args[k]) && rv_src_v(in[k + 1]) == ival(args[k]))
 //@   loop 2 invariant 0 <= i && len(in) == n && forall(k, 0, i, args[k] != nil ==> rv_valid(in[k]) && rv_src_t(in[k]) == typeof(args[k]) && rv_src_v(in[k]) == ival(args[k]))
